@@ -14,7 +14,8 @@ Inductive oev := ONext (i : iobs) | OErr (e : Z) | ODone.
 
 Inductive fstim :=
 | FOuter (e : oev)               (* a notification of the outer stream *)
-| FInner (id : nat) (e : ev).    (* a notification of hot inner subject `id` *)
+| FInner (id : nat) (e : ev)     (* a notification of hot inner subject `id` *)
+| FUnsub.                        (* unsubscribe() on the MultiSubscription returned by the operator *)
 
 Inductive fout :=
 | FItem (k : nat) (v : val)      (* item of the k-th inner observable delivered downstream *)
@@ -147,6 +148,7 @@ Definition fstep (n : option nat) (s : fstate) (st : fstim) : fstate * list fout
         if Nat.eqb (f_subscribed s) 0 && match f_queue s with [] => true | _ => false end
         then (upd_alive s false, [FTerm Done]) else (s, [])
       else (s, [])
+  | FUnsub => (s, [])            (* handled by frun: every input is unsubscribed *)
   | FInner id e =>
       if memn id (f_hot_done s) then (s, [])
       else
@@ -171,6 +173,10 @@ Fixpoint frun (n : option nat) (s : fstate) (outer_live : bool) (j : nat) (sts :
           else FMark j :: frun n s outer_live (S j) r
       | FInner _ _ =>
           let '(s', out) := fstep n s st in FMark j :: out ++ frun n s' outer_live (S j) r
+      | FUnsub =>
+          (* the outer subscription and every subscribed inner observable are unsubscribed (their
+             Subscriber slots are emptied): nothing reaches the operator any more *)
+          FMark j :: map FMark (seq (S j) (length r))
       end
   end.
 
